@@ -59,8 +59,8 @@ func (sc *scenario) node(i int) *node.Node { return sc.w.Nodes[i] }
 
 // per-profile favoured templates (70 % of the draws); every profile still draws from the full lists
 var favTx = map[string][]string{
-	"value":  {"valid", "yield-swap", "fee-exact", "fee-low", "fee-plus1", "overflow", "huge-output", "huge-output", "many-outputs", "consolidate", "zero-output"},
-	"spend":  {"valid", "double-spend", "same-input-twice", "spend-pooled", "spend-last-block", "duplicate", "bad-index", "unknown-ref"},
+	"value":  {"valid", "same-input-twice-rich", "yield-swap", "fee-exact", "fee-low", "fee-plus1", "overflow", "huge-output", "huge-output", "many-outputs", "consolidate", "zero-output"},
+	"spend":  {"valid", "double-spend", "same-input-twice", "same-input-twice-rich", "spend-pooled", "spend-last-block", "duplicate", "bad-index", "unknown-ref"},
 	"owner":  {"valid", "valid", "many-outputs", "bad-sig", "zero-sig", "wrong-owner", "wrong-owner-2nd", "wrong-owner-2nd", "foreign-sig", "replay-sig", "replay-sig", "unknown-ref"},
 	"shape":  {"valid", "ts-old", "ts-last", "ts-next", "ts-future"},
 	"income": {"valid", "yield-new", "yield-new", "yield-twice", "yield-registered", "yield-swap", "yield-swap"},
@@ -125,7 +125,7 @@ func (sc *scenario) value(u *ledger.Utxo, at int64) uint64 {
 
 var txKinds = []string{"valid", "valid", "valid", "valid", "fee-exact", "fee-low", "fee-plus1", "double-spend", "duplicate", "bad-sig",
 	"zero-sig", "wrong-owner", "wrong-owner-2nd", "foreign-sig", "replay-sig", "unknown-ref", "bad-index", "ts-old", "ts-last", "ts-next", "ts-future", "overflow", "huge-output",
-	"yield-new", "yield-twice", "yield-registered", "yield-swap", "same-input-twice", "spend-pooled", "spend-last-block", "zero-output", "many-outputs", "consolidate"}
+	"yield-new", "yield-twice", "yield-registered", "yield-swap", "same-input-twice", "same-input-twice-rich", "spend-pooled", "spend-last-block", "zero-output", "many-outputs", "consolidate"}
 
 func (sc *scenario) makeTx(n *node.Node, kind string) (*ledger.Transaction, string) {
 	r := sc.rng
@@ -413,6 +413,10 @@ func (sc *scenario) makeTx(n *node.Node, kind string) (*ledger.Transaction, stri
 		pickSome(1)
 		spends = append(spends, spends[0])
 		return mk(spends, outs(inV, S.MinFee, ""), ts), kind
+	case "same-input-twice-rich": // pays out what the output would be worth if it counted once per listing
+		pickSome(1)
+		spends = append(spends, spends[0])
+		return mk(spends, outs(2*inV, S.MinFee, ""), ts), kind
 	case "spend-pooled", "spend-last-block":
 		var src []*ledger.Transaction
 		if kind == "spend-pooled" {
